@@ -356,9 +356,26 @@ static void history_bfs(Harness &H, const std::string &d0, const Grid<S> &g, siz
         hd += ";" + hs.ops[oi].name;
         H.begin(hd);
       }
+      if (mine) {
+        // evaluate before the update (whatever the evaluation leaves behind in the object must not survive the update)
+        for (const mpq_class &x : {mq(-5, 2), mq(-1), mq(1, 4)}) (void)t(mk<S>(x));
+      }
       Outcome oc = attempt([&] { hs.apply(t, hs.ops[oi]); });
       if (mine) {
         RefPP ex = hs.apply_ref(ref, hs.ops[oi]);
+        if (!oc.threw()) {
+          // ... and the updated object must EVALUATE to the reference function, first of all in the intervals
+          // that were evaluated before the update
+          auto gp = gridpts(g);
+          std::vector<mpq_class> xs = {mq(-5, 2), mq(-1), mq(1, 4)};
+          for (size_t i = 0; i + 1 < gp.size(); i++) { xs.push_back((gp[i] + 3 * gp[i + 1]) / 4); xs.push_back((gp[i] + gp[i + 1]) / 2); }
+          for (auto &x : xs) {
+            size_t iv = 0;
+            while (iv + 2 < gp.size() && x > gp[iv + 1]) iv++;
+            mpq_class want = peval(ex.get(iv), x), got = val(t(mk<S>(x)));
+            if (got != want) { H.fail("history:eval", "after the history the object evaluates to " + got.get_str() + " at x = " + x.get_str() + ", the denoted function has " + want.get_str()); break; }
+          }
+        }
         H.count("transitions");
         H.count("traces_validated_against_impl");
         if (oc.threw()) H.fail("history:threw", oc.str());
